@@ -32,6 +32,7 @@ import numpy as np
 from vlib import stubs, symx
 from vlib.runner import main
 
+VERIF_ROOT = __import__("os").path.dirname(__import__("os").path.dirname(__import__("os").path.abspath(__file__)))
 PROPERTY = "C17"
 STUBS = [
     "stdlib random module functions -> SymRng draws (fresh solver variable per call); explicit random.Random(seed) instances stay real",
@@ -337,7 +338,7 @@ def run_item(item, rec):
 _CHILD = r"""
 import sys, json, random, warnings
 warnings.simplefilter("ignore")
-sys.path.insert(0, "/verif")
+sys.path.insert(0, __import__("os").environ["VERIF_ROOT"])
 import numpy as np
 from checks import c17
 name, seed, gseed = sys.argv[1], int(sys.argv[2]), int(sys.argv[3])
@@ -357,7 +358,7 @@ def replay(v):
     name, seed = v["api"], v["seed"]
     outs = []
     for gseed, hseed in ((1, "1"), (2, "2"), (3, "77"), (4, "4242")):
-        env = dict(os.environ, PYTHONHASHSEED=hseed, PYTHONPATH="/verif")
+        env = dict(os.environ, PYTHONHASHSEED=hseed, PYTHONPATH=VERIF_ROOT, VERIF_ROOT=VERIF_ROOT)
         p = subprocess.run([sys.executable, "-W", "ignore", "-c", _CHILD, name, str(seed), str(gseed)], capture_output=True, text=True, env=env, timeout=300)
         if p.returncode != 0:
             return False, f"child failed: {p.stderr[-300:]}"
